@@ -178,6 +178,12 @@ def surface(draw, variants=("acorn", "watford", "opus"), geoms=None, chars=None,
                 letters = ["A"] + sorted(draw(st.lists(st.sampled_from("BCDEFGH"), min_size=nvol - 1,
                                                         max_size=nvol - 1, unique=True)))
         s["opus_letters_with_gap"] = letters != list("ABCDEFGH"[:nvol])
+        if nvol >= 2 and draw(st.integers(0, 3)) == 0:
+            # the letters need not follow the order of the volumes on the disc (B may lie in front of A): a volume
+            # ends where the physically next one begins, whatever its letter
+            k = draw(st.integers(1, nvol - 1))
+            letters = letters[k:] + letters[:k]
+            s["opus_letters_not_in_disc_order"] = True
         for i, stt in enumerate(starts):
             end = starts[i + 1] if i + 1 < len(starts) else tracks
             vlen = (end - stt) * spt
